@@ -596,7 +596,10 @@ def shared(ctx):
     r6 = skip_icu_gates(ctx, "C20.R6", "the helper's parse accepts every formatter and plural regardless of the parser's own feature set",
                         "`the helper derives the options from the translations`: it parses with SKIP_ICU_CFG, which must stand in for each formatter / plural "
                         "feature wherever the parser tests one; a gate that ignores the flag makes the helper fail (or skip) exactly the translations whose data it should request")
-    return [r5, r6]
+    r7 = borrow(c08.r2_union(ctx, ctx.mir("main")), "C20.R7", "every formatter a variable is used with is recorded on it",
+                "`each formatter family's data iff that formatter is used`: the helper reads the formatters off the variables of the key information; a signature that keeps "
+                "one formatter per `kind of input` (number and currency both take numbers) loses the currency family when the same variable is also a plain number", only=r"push_var", floor=1)
+    return [r5, r6, r7]
 
 
 def run(ctx):
